@@ -10,7 +10,7 @@ import (
 func init() { register("C23", propC23) }
 
 func propC23(c *Check) {
-	c.Explain = "Decides the key-family structure of the proposal queue: (1) cacheStoreTransaction writes the PAYLOAD family only; cacheQueueTransaction writes ORDER, PAYLOAD and QUEUE in one cacheDB write transaction; the QUEUE family is set nowhere else; (2) CacheRetrieveTransactions works in one cacheDB.Update, iterates the QUEUE prefix only, deletes exactly QUEUE and ORDER keys (the visited queue key and the order key of its hash) and never writes or deletes PAYLOAD; its scan continues only while len(txs) < limit; a per-hash filter test precedes the append and the filter is filled; only bodies read through cacheReadTransaction are appended; (3) CacheRemoveTransactions deletes PAYLOAD and ORDER; (4) kernel: CacheStoreTransactions (payload-only peer path) reaches CacheStoreTransaction but never CacheQueueTransaction; CacheQueueTransactions reaches CacheQueueTransaction; retrieval is called only by the cache-queue loop."
+	c.Explain = "Decides the key-family structure of the proposal queue: (1) cacheStoreTransaction writes the PAYLOAD family only; cacheQueueTransaction writes ORDER, PAYLOAD and QUEUE in one cacheDB write transaction; the QUEUE family is set nowhere else; (2) CacheRetrieveTransactions works in one cacheDB.Update, iterates the QUEUE prefix only, deletes exactly QUEUE and ORDER keys (the visited queue key and the order key of its hash) and never writes or deletes PAYLOAD; its scan continues only while len(txs) < limit; a per-hash filter test precedes the append and the filter is filled; only bodies read through cacheReadTransaction are appended; (3) CacheRemoveTransactions deletes PAYLOAD and ORDER; (4) kernel: CacheStoreTransactions (payload-only peer path) reaches CacheStoreTransaction but never CacheQueueTransaction; CacheQueueTransactions reaches CacheQueueTransaction; retrieval is called only by the cache-queue loop; (5) every success return of Node.QueueTransaction passes CacheQueueTransaction unless the transaction is already finalized; (6) openDB never turns Badger conflict detection off."
 	c.NotCov = "interleavings on the optimistic cache DB (ErrConflict retries), TTL expiry of records, and the run-time order of queue keys."
 	c.Floor(14)
 	w := c.W
@@ -125,5 +125,36 @@ func propC23(c *Check) {
 		c.Require(reach("(*kernel.Node).CacheQueueTransactions", qT), "reach", "(*kernel.Node).CacheQueueTransactions", "the queueing peer path reaches CacheQueueTransaction", "queue path no longer queues")
 	}
 	c.WhoCalls("iface:storage.Store.CacheRetrieveTransactions", []string{"(*kernel.Node).popAndProcessCacheQueue"}, "a single consumer drains the queue")
+	// (5) Node.QueueTransaction: every success return passes CacheQueueTransaction, except for a
+	// transaction that is already finalized (a cached body is not the same as a scheduled one)
+	if f := c.F("(*kernel.Node).QueueTransaction"); f != nil {
+		q := callBlocks(f, Call(qT))
+		cut := outEdges(f, q)
+		fin := findIfs(f, Bin(token.GTR, Len(Extract(1, Call("iface:storage.Store.ReadTransaction"))), ConstInt(0)))
+		for _, i := range fin {
+			cut[Edge{i.Block().Index, i.Block().Succs[0].Index}] = true
+		}
+		bad := ""
+		for bi := range reachable(f, f.Blocks[0], cut) {
+			b := f.Blocks[bi]
+			if r, ok := b.Instrs[len(b.Instrs)-1].(*ssa.Return); ok && !q[bi] && b != f.Recover && ConstNil(retValue(r, 1)) {
+				bad = instrPos(c.W, r)
+			}
+		}
+		c.Require(len(q) >= 1 && len(fin) == 1 && bad == "", "postgate", shortName(f)+"|success => queued", "every success return of QueueTransaction passes CacheQueueTransaction unless the transaction is already finalized", "a success return at "+bad+" is reachable without queueing", c.W.Pos(f.Pos()))
+	}
+	// (6) Badger's optimistic conflict detection stays on for both databases: the queue's
+	// retrieve-and-delete, the lock takers and the work credit all rely on a conflicting concurrent
+	// transaction being refused
+	if f := c.F("storage.openDB"); f != nil {
+		bad := ""
+		for _, ci := range findCalls(f, "(github.com/dgraph-io/badger/v4.Options).WithDetectConflicts") {
+			if !ConstBool(true)(ci.Common().Args[1]) {
+				bad = instrPos(c.W, ci)
+			}
+		}
+		c.Sites++
+		c.Require(bad == "", "config", shortName(f)+"|conflict detection on", "openDB never turns Badger's DetectConflicts off (default: on)", "WithDetectConflicts is called with a value that is not the constant true at "+bad, c.W.Pos(f.Pos()))
+	}
 	_ = strings.Join
 }
